@@ -95,6 +95,23 @@ Definition v_data_k (k : ykind) (zs ws xv yv : list float) (out : result float) 
           end in
   if route_eqb (dispatch false k) RData then v else if v mod 2 =? 0 then v + 1 else v.
 
+(* ... judged at the abscissae [xi] that the code handed to interplin (observed): the model's
+   abscissae must be these bit for bit, and the verified checker data_check_at decides the statement *)
+Definition v_data_at (k : ykind) (zs ws xv yv xi : list float) (out : result float) : Z :=
+  let v := verdict (ofloat_eqb (F.integrate_data zs ws xv yv) out
+                    && F.flist_eqb xi (F.func_abscissae zs (F.fmin_list xv) (F.fmax_list xv)))
+          match out with
+          | Err _ => false
+          | Ok res =>
+            match fl2d zs, fl2d ws, fl2d xv, fl2d yv, fl2d xi, f2d res with
+            | Some dzs, Some dws, Some dxv, Some dyv, Some dxi, Some dres =>
+              Nat.eqb (length xi) (length ws) &&
+              data_check_at (map d2Q dzs) (map d2Q dws) (map d2Q dxv) (map d2Q dyv) (map d2Q dxi) (d2Q dres)
+            | _, _, _, _, _, _ => false
+            end
+          end in
+  if route_eqb (dispatch false k) RData then v else if v mod 2 =? 0 then v + 1 else v.
+
 Definition v_data (zs ws xv yv : list float) (out : result float) : Z :=
   verdict (ofloat_eqb (F.integrate_data zs ws xv yv) out)
           match out with
